@@ -265,6 +265,11 @@ func main() {
 			if bb, _ := os.ReadFile(base + ".results"); strings.Count(string(bb), `"k":"blocked"`) > 0 {
 				blockedDeaths++
 			}
+			if bb, _ := os.ReadFile(base + ".results"); strings.Count(string(bb), `"k":"budget-cpu"`) >= 5 {
+				// five datagrams of this chunk took more than a second of CPU each (reported): the rest would cost as much
+				run.Inconclusive(fmt.Sprintf("%s[%d,%d): five datagrams over the CPU bound (reported); rest of the chunk skipped", ch.fam.name, ch.from, ch.to))
+				return
+			}
 			if blockedDeaths >= 3 {
 				// every further executor would park at the same place after a few hundred cases and cost 3 s each
 				run.Inconclusive(fmt.Sprintf("%s[%d,%d): three executors in a row parked for ever (reported); rest of the chunk skipped", ch.fam.name, ch.from, ch.to))
